@@ -91,6 +91,16 @@ type Prog struct {
 
 func MsgID(p, c, i int) string { return fmt.Sprintf("p%dc%dm%d", p, c, i) }
 
+// topicSpelling: 64 distinct topic names. A topic name is an opaque string: names that differ only in case, in surrounding
+// white space or in a trailing separator are different topics (the first sixteen are such near-twins of each other).
+func topicSpelling(k int) string {
+	twins := []string{"orders", "Orders", "ORDERS", "orders ", " orders", "orders\n", "\torders", "orders/", "orders.", "order", "orders#", "", " ", "ordérs", "orders\x00", "o"}
+	if k < len(twins) {
+		return twins[k]
+	}
+	return fmt.Sprintf("topic-%d", k)
+}
+
 // topic names come from a generated pool (Prog.TopicNames; index NTopics = the side topic)
 func (p Prog) topicName(i int) string {
 	if i >= 0 && i < len(p.TopicNames) {
@@ -151,7 +161,7 @@ func Gen(t *rapid.T, o Opts) Prog {
 			}
 		}
 		seen[k] = true
-		p.TopicNames = append(p.TopicNames, fmt.Sprintf("topic-%d", k))
+		p.TopicNames = append(p.TopicNames, topicSpelling(k))
 	}
 	if o.ForcePersistent != nil {
 		p.Persistent = *o.ForcePersistent
